@@ -166,7 +166,9 @@ def _prev_types(startc):
 
 
 # ---------------------------------------------------------------------------- C2S
-ATTR_NAMES = ["unit", "latex", "range", "title", "scale", "label", "bins", "note"]
+ATTR_NAMES = ["unit", "latex", "range", "title", "scale", "label", "bins", "note",
+              # names of the element protocol and of Variable's own members
+              "run", "fill", "compute", "request", "reset", "fill_into", "var_context"]
 TYPE_NAMES = ["particle", "coordinate", "length", "area", "detector", "energy", "time", "angle", "charge"]
 WORDS = ["mm", "cm", "e+", "MeV", "x", "far", "near", "a_b", "log", "0", "100", ""]
 
